@@ -678,5 +678,6 @@ pub fn run(a: &Args) {
         crate::c13x::run_all(&mut out, &mut rng, a.n / 40 + 10, true).await;
     });
     let _ = (hex(b""), ReplicatedValue::new(ReplicaId::new(1)));
+    crate::stream_api::report(&mut out, "C13");
     out.finish("case = one segment layout: an update set (single replica with monotone stamps, or 1..3 replicas × 1..16 shards with interleaved clocks, hashes, tombstones, expiries, 1/8 type changes) split into 2..6 segments (1/8 duplicated) by the real StreamingPersistence, compacted by the real Compactor under a generated configuration (size target below some segments 1/2, max-per-compaction 2 (1/2) or 2..5, min 1..3, tombstone cutoff 0 / mid-range / above all stamps), recovered before and after; plus the exhaustive enumeration of all store-call interleavings of compact() and flush() on a 2-segment store; distinct by op text / schedule; non-trivial iff a compacted segment was written from ≥ 2 segments, or an interleaving leaf");
 }
